@@ -325,6 +325,18 @@ class GenBinding:
         if bool(mab._is_initial_fit) != bool(state["fitted"]):
             out.append(("state.fitted", "fitted %s, spec %s" % (mab._is_initial_fit, state["fitted"])))
         imp = mab._imp
+        # the public policy properties report the configuration the bandit was built with, at every point of its life
+        lp, np_ = self.policies()
+        try:
+            got_lp, got_np = mab.learning_policy, mab.neighborhood_policy
+            if type(got_lp) is not type(lp) or tuple(got_lp) != tuple(lp):
+                out.append(("state.policy", "learning_policy reports %r, constructed with %r" % (got_lp, lp)))
+            if (np_ is None) != (got_np is None) or (np_ is not None and type(got_np) is not type(np_)):
+                out.append(("state.policy", "neighborhood_policy reports %r, constructed with %r" % (got_np, np_)))
+            elif np_ is not None and self.np != "tree" and tuple(got_np) != tuple(np_):
+                out.append(("state.policy", "neighborhood_policy reports %r, constructed with %r" % (got_np, np_)))
+        except NotImplementedError:
+            pass
         if list(getattr(imp, "arms", mab.arms)) != list(mab.arms):
             out.append(("state.keys", "implementation arm list %s, MAB.arms %s" % (imp.arms, mab.arms)))
         for name, value in vars(imp).items():
